@@ -10,6 +10,7 @@ From Coq Require Import List Arith ZArith Bool.
 From MomoCommon Require GenPrelude.
 From C05 Require Import ArrayShift ArrayModel ShiftProofs FilterProofs ArrayProofs SegProofs.
 From C05 Require GrowProofs Gen_Grow GuardProofs Gen_GuardsShifter Gen_GuardsArray Gen_GuardsSeg.
+From C05 Require Gen_ShiftLoops ShiftLoopProofs Gen_IndexOf IndexOfProofs.
 Import ListNotations.
 
 (* ArrayShifter::InsertNogrow(array, index, count, const Item& item): for EVERY array contents l (elements may even be
@@ -451,3 +452,82 @@ Theorem C05_overflow_guards_refuted :
   Gen_GuardsArray.Insert_prefix 5 8 0 (2 ^ 64 - 1) = GenPrelude.Exn.
 Proof. exact GuardProofs.overflow_guards_refuted. Qed.
 Print Assumptions C05_overflow_guards_refuted.
+
+(* ================= the LOOPS of ArrayShifter::Remove, GENERATED from the real template code (array = index-addressed cells) ================= *)
+(* "the shift moves exactly the tail": for every valid call the generated Remove (range check + loop + RemoveBack, 64-bit arithmetic) ends with
+   count - n items, the cells below index untouched, the cells [index, count - n) holding the old cells shifted down by n, and every cell at or
+   beyond the old count untouched *)
+Theorem C05_shift_remove_spec :
+  forall (items : Z -> Z) (cnt cap_ index count : Z),
+    (0 <= index)%Z -> (0 <= count)%Z -> (index + count <= cnt)%Z -> (cnt <= cap_)%Z -> (cap_ < ShiftLoopProofs.U64 - 1)%Z ->
+    exists items', Gen_ShiftLoops.ShiftRemove items cnt cap_ index count = GenPrelude.Ok (tt, items', (cnt - count)%Z) /\
+      (forall j, (j < index)%Z -> items' j = items j) /\
+      (forall j, (index <= j < cnt - count)%Z -> items' j = items (j + count)%Z) /\
+      (forall j, (cnt <= j)%Z -> items' j = items j).
+Proof. exact ShiftLoopProofs.shift_remove_spec. Qed.
+Print Assumptions C05_shift_remove_spec.
+
+(* refinement: on every valid call the generated loops and the hand model (remove_range, C05_remove_refines) compute the same sequence *)
+Theorem C05_shift_remove_refines_model :
+  forall (self_move after_move : Z -> option Z) (items : Z -> Z) (n cap_ index count r : nat),
+    index + count <= n -> n <= cap_ -> (Z.of_nat cap_ < ShiftLoopProofs.U64 - 1)%Z ->
+    exists items',
+      Gen_ShiftLoops.ShiftRemove items (Z.of_nat n) (Z.of_nat cap_) (Z.of_nat index) (Z.of_nat count) =
+        GenPrelude.Ok (tt, items', Z.of_nat (n - count)) /\
+      remove_range Z self_move after_move true (arr_ofo (map Some (ShiftLoopProofs.list_of items n)) r) index count =
+        Ok (arr_ofo (map Some (ShiftLoopProofs.list_of items' (n - count))) (r + count)).
+Proof. exact ShiftLoopProofs.shift_remove_refines_model. Qed.
+Print Assumptions C05_shift_remove_refines_model.
+
+(* ================= the alias-protection mechanism: GENERATED Array::pvIndexOf ================= *)
+(* pvIndexOf returns the item's index exactly when the reference points into [items, items + count); otherwise maxSize, which is never < count *)
+Theorem C05_pv_index_of_exact :
+  forall items cnt ptr : Z,
+    (0 <= items)%Z -> (0 <= cnt)%Z -> (items + cnt < IndexOfProofs.U64)%Z -> (0 <= ptr < IndexOfProofs.U64)%Z ->
+    (forall p, (0 <= p < cnt)%Z -> ptr = (items + p)%Z -> Gen_IndexOf.pvIndexOf items cnt ptr = p) /\
+    ((ptr < items \/ items + cnt <= ptr)%Z -> Gen_IndexOf.pvIndexOf items cnt ptr = (IndexOfProofs.U64 - 1)%Z /\ (cnt <= IndexOfProofs.U64 - 1)%Z).
+Proof. exact IndexOfProofs.pv_index_of_exact. Qed.
+Print Assumptions C05_pv_index_of_exact.
+
+(* the test of Array::Insert on it: the ArrayItemHandler temporary is made exactly for an element at or behind the insertion point *)
+Theorem C05_alias_test_exact :
+  forall items cnt ptr index : Z,
+    (0 <= items)%Z -> (0 <= cnt)%Z -> (items + cnt < IndexOfProofs.U64)%Z -> (0 <= ptr < IndexOfProofs.U64)%Z -> (0 <= index)%Z ->
+    (forall p, (0 <= p < cnt)%Z -> ptr = (items + p)%Z ->
+       IndexOfProofs.alias_test index cnt (Gen_IndexOf.pvIndexOf items cnt ptr) = (index <=? p)%Z) /\
+    ((ptr < items \/ items + cnt <= ptr)%Z -> IndexOfProofs.alias_test index cnt (Gen_IndexOf.pvIndexOf items cnt ptr) = false).
+Proof. exact IndexOfProofs.alias_test_exact. Qed.
+Print Assumptions C05_alias_test_exact.
+
+(* ... and it is the hand model's pv_index_of / alias_at_or_after (ArgRef p = the address items + p) *)
+Theorem C05_model_index_of_is_the_real_one :
+  forall (items : Z) (cnt p index : nat),
+    (0 <= items)%Z -> (items + Z.of_nat cnt < IndexOfProofs.U64)%Z -> (0 <= items + Z.of_nat p < IndexOfProofs.U64)%Z ->
+    IndexOfProofs.alias_test (Z.of_nat index) (Z.of_nat cnt) (Gen_IndexOf.pvIndexOf items (Z.of_nat cnt) (items + Z.of_nat p)%Z) =
+      (if p <? cnt then (index <=? p) && (p <? cnt) else false).
+Proof. exact IndexOfProofs.model_index_of_is_the_real_one. Qed.
+Print Assumptions C05_model_index_of_is_the_real_one.
+
+(* ================= copy / move / swap of whole arrays (hand model) ================= *)
+(* copy construction / assignment: same objects, capacity = max(count, internal capacity), one allocation iff count > internal capacity *)
+Theorem C05_array_copy_refines :
+  forall (V : Type) (ic : nat) (l : list (option V)) (r al : nat),
+    array_copy V ic {| body := arr_ofo l r; allocs := al |} =
+      {| body := arr_ofo l ((if ic <? length l then length l else ic) - length l); allocs := if ic <? length l then S al else al |}.
+Proof. exact ArrayProofs.array_copy_refines. Qed.
+Print Assumptions C05_array_copy_refines.
+
+(* move assignment: the target's items are destroyed, the target becomes the source (contents, count, capacity), the source is empty *)
+Theorem C05_array_move_assign_refines :
+  forall (V : Type) (ic : nat) (lt ls : list (option V)) (rt rs alt als : nat),
+    array_move_assign V ic {| body := arr_ofo lt rt; allocs := alt |} {| body := arr_ofo ls rs; allocs := als |} =
+      Ok ({| body := arr_ofo ls rs; allocs := alt |}, {| body := arr_ofo [] ic; allocs := alt |}).
+Proof. exact ArrayProofs.array_move_assign_refines. Qed.
+Print Assumptions C05_array_move_assign_refines.
+
+(* move construction leaves the source empty with the internal capacity; swap exchanges the two arrays completely *)
+Theorem C05_array_move_construct_and_swap :
+  forall (V : Type) (ic : nat) (a b : array V),
+    array_move_construct V ic a = (a, {| body := arr_ofo [] ic; allocs := allocs V a |}) /\ array_swap V a b = (b, a).
+Proof. exact ArrayProofs.array_move_construct_and_swap. Qed.
+Print Assumptions C05_array_move_construct_and_swap.
